@@ -5,5 +5,5 @@ CONSTANTS
 VIEW TableView
 INVARIANTS TypeOK RowOK RowGateBeforeInit RowDuplicateInitRejected RowPrematureInitializedRejected
   RowRepeatedInitializedRejected RowFirstInitializedTakesEffect RowPingAlways RowModernServedIffMetaComplete RowRemovedMethodsNotFound
-  RowLeadBreaksGate ExportLeads ExportRow
+  RowLeadBreaksGate ExportLeads ExportRow ExportAlphabet
 CHECK_DEADLOCK FALSE
